@@ -94,7 +94,7 @@ func notInTargets(ts []modTarget, comp string, l string) Term {
 			continue
 		}
 		if t.elems {
-			cs = append(cs, fmt.Sprintf("(not (and (is_idx %s) (= (idx_base %s) %s)))", l, l, t.under))
+			cs = append(cs, fmt.Sprintf("(not (and (is_idx %s) (= (idx_base %s) %s) (not (= %s nil))))", l, l, t.under, t.under))
 		} else {
 			cs = append(cs, fmt.Sprintf("(not (= %s %s))", l, t.ix))
 		}
@@ -107,7 +107,7 @@ func (fr *Frame) applyContract(cx *callCtx, con *Contract) []Term {
 	vc := e.vc
 	callee := cx.callee
 	pre := cx.st.clone()
-	env := &specEnv{eng: e, fr: nil, fn: callee, st: cx.st, old: pre, vars: map[string]binding{}, pkg: con.Pkg, con: con}
+	env := &specEnv{eng: e, fr: nil, fn: callee, st: cx.st, old: pre, vars: map[string]binding{}, pkg: con.Pkg, con: con, atFresh: map[string]sval{}}
 	for i, p := range callee.Params {
 		env.vars[p.Name()] = binding{cx.args[i], p.Type()}
 	}
@@ -133,7 +133,7 @@ func (fr *Frame) applyContract(cx *callCtx, con *Contract) []Term {
 		}
 		for _, c := range sortedKeys(comps) {
 			old := e.get(cx.st, c)
-			nw := vc.fresh("hv$"+c, e.compSort[c])
+			var nw Term
 			simple := true
 			for _, t := range ts {
 				if t.comp == c && t.elems {
@@ -141,15 +141,17 @@ func (fr *Frame) applyContract(cx *callCtx, con *Contract) []Term {
 				}
 			}
 			if simple {
-				// new = old with the target cells replaced
+				// new = old with the target cells replaced by arbitrary values
 				chain := old
+				vs := strings.TrimSuffix(strings.TrimPrefix(e.compSort[c], "(Array Loc "), ")")
 				for _, t := range ts {
 					if t.comp == c {
-						chain = sto(chain, t.ix, sel(nw, t.ix))
+						chain = sto(chain, t.ix, vc.fresh("hvcell", vs))
 					}
 				}
-				vc.assumeIf(cx.st.pc, eq(nw, chain))
+				nw = vc.name("hv$"+c, e.compSort[c], chain)
 			} else {
+				nw = vc.fresh("hv$"+c, e.compSort[c])
 				vc.assumeIf(cx.st.pc, fmt.Sprintf("(forall ((l Loc)) (! (=> %s (= (select %s l) (select %s l))) :pattern ((select %s l))))", notInTargets(ts, c, "l"), nw, old, nw))
 			}
 			cx.st.heap[c] = nw
@@ -287,6 +289,22 @@ func VerifyFunction(p *Program, cs *Contracts, fn *ssa.Function, con *Contract) 
 	for _, c := range con.Requires {
 		vc.assume(env.evalBool(c.Expr))
 	}
+	for _, an := range con.Uses {
+		found := false
+		for _, ax := range cs.Axioms {
+			if ax.Name == an {
+				found = true
+				aenv := fr.specEnvFor(st)
+				aenv.pkg = ax.Pkg
+				aenv.con = nil
+				vc.assume(aenv.evalBool(ax.Expr))
+				vc.assumes["axiom "+an+": "+strings.TrimSpace(ax.Src)] = true
+			}
+		}
+		if !found {
+			panic(specErr("unknown axiom " + an))
+		}
+	}
 	vc.cover(fr.oblName("pre-sat"), "true", "preconditions satisfiable")
 	fr.run(st)
 	// merge returns
@@ -308,11 +326,22 @@ func VerifyFunction(p *Program, cs *Contracts, fn *ssa.Function, con *Contract) 
 		}
 		results[i] = vc.name("result", vc.sortOf(fn.Signature.Results().At(i).Type()), t)
 	}
-	penv := fr.specEnvFor(final)
-	penv.results = results
+	_ = results
 	vc.cover(fr.oblName("post-reach"), final.pc, "some return is reachable")
+	// postconditions are evaluated per return point (no merged heap), one obligation per clause
+	perRet := func(f func(env *specEnv) Term) Term {
+		var cs []Term
+		for _, r := range fr.rets {
+			env := fr.specEnvFor(r.st)
+			env.results = r.results
+			cs = append(cs, implies(r.st.pc, f(env)))
+		}
+		return and(cs...)
+	}
+	for _, w := range con.Witness {
+		perRet(func(env *specEnv) Term { env.eval(w.Expr); return "true" }) // introduces witness terms and their (listed) axioms
+	}
 	for k, c := range con.Ensures {
-		g := penv.evalBool(c.Expr)
 		id := clauseID(c, k)
 		var split *FindingSplit
 		for _, f := range con.Findings {
@@ -321,14 +350,15 @@ func VerifyFunction(p *Program, cs *Contracts, fn *ssa.Function, con *Contract) 
 			}
 		}
 		if split == nil {
-			vc.oblige(fr.oblName("post."+id), "post", final.pc, g, c.Src)
+			g := perRet(func(env *specEnv) Term { return env.evalBool(c.Expr) })
+			vc.oblige(fr.oblName("post."+id), "post", "true", g, c.Src)
 			continue
 		}
 		// known finding: the clause is split on the discriminator (evaluated in the entry state)
 		denv := fr.specEnvFor(fr.entry)
-		denv.results = results
 		d := denv.evalBool(split.Disc.Expr)
-		vc.oblige(fr.oblName("post."+id+".outside"), "post", and(final.pc, not(d)), g, c.Src+"   [outside known finding "+split.ID+"]")
+		g := perRet(func(env *specEnv) Term { return env.evalBool(c.Expr) })
+		vc.oblige(fr.oblName("post."+id+".outside"), "post", not(d), g, c.Src+"   [outside known finding "+split.ID+"]")
 		vc.obls = append(vc.obls, &Obligation{Name: fr.oblName("post." + id + ".inside"), Kind: "finding", NAsserts: len(vc.asserts), NDecls: len(vc.decls), Guard: and(final.pc, d), Goal: g, Src: c.Src, Finding: split.ID})
 	}
 	// frame
@@ -336,18 +366,24 @@ func VerifyFunction(p *Program, cs *Contracts, fn *ssa.Function, con *Contract) 
 		menv := fr.specEnvFor(fr.entry)
 		ts := menv.resolveModifies(con.Modifies)
 		for _, c := range sortedKeys(final.heap) {
-			if strings.HasPrefix(c, "$") {
+			if strings.HasPrefix(c, "$") || !strings.HasPrefix(e.compSort[c], "(Array Loc ") {
 				continue
 			}
-			cur := final.heap[c]
 			init := sym(c + "@0")
-			if cur == init {
-				continue
-			}
 			l := "l!frame"
 			cond := and(fmt.Sprintf("(< (rootid %s) alloc@0)", l), notInTargets(ts, c, l))
-			goal := fmt.Sprintf("(forall ((%s Loc)) (=> %s (= (select %s %s) (select %s %s))))", l, cond, cur, l, init, l)
-			vc.oblige(fr.oblName("frame."+c), "frame", final.pc, goal, "only the declared locations of "+c+" change")
+			var cs []Term
+			for _, r := range fr.rets {
+				cur := e.get(r.st, c)
+				if cur == init {
+					continue
+				}
+				cs = append(cs, implies(r.st.pc, fmt.Sprintf("(forall ((%s Loc)) (=> %s (= (select %s %s) (select %s %s))))", l, cond, cur, l, init, l)))
+			}
+			if len(cs) == 0 {
+				continue
+			}
+			vc.oblige(fr.oblName("frame."+c), "frame", "true", and(cs...), "only the declared locations of "+c+" change")
 		}
 	}
 	for _, ss := range con.Sites {
